@@ -164,6 +164,8 @@ impl Case {
 }
 
 pub static GUARD_PAGES: std::sync::atomic::AtomicBool = std::sync::atomic::AtomicBool::new(false);
+/// dynamic entry: hand the cropped SOURCE over as a `CroppedImageMut` (its read-only view) instead of a `CroppedImage`
+pub static SRC_AS_MUT_VIEW: std::sync::atomic::AtomicBool = std::sync::atomic::AtomicBool::new(false);
 
 extern "C" {
     fn mmap(addr: *mut u8, len: usize, prot: i32, flags: i32, fd: i32, off: i64) -> *mut u8;
@@ -286,6 +288,23 @@ fn run_dynamic(case: &Case, resizer: &mut Resizer, sbytes: &[u8], dbytes: &mut V
     let mut dal = vec![0u128; dbytes.len() / 16 + 1];
     let dslice: &mut [u8] = unsafe { std::slice::from_raw_parts_mut(dal.as_mut_ptr() as *mut u8, dbytes.len()) };
     dslice.copy_from_slice(dbytes);
+    if SRC_AS_MUT_VIEW.load(std::sync::atomic::Ordering::Relaxed) && shape_crops(&case.sshape).len() == 1 {
+        let sc = shape_crops(&case.sshape);
+        let dc = shape_crops(&case.dshape);
+        let mut simg_m = Image::from_slice_u8(sw, sh, sslice, case.pt).unwrap();
+        let r = {
+            let s1 = CroppedImageMut::new(&mut simg_m, sc[0].0, sc[0].1, sc[0].2, sc[0].3).unwrap();
+            let mut dimg = Image::from_slice_u8(dw, dh, dslice, case.pt).unwrap();
+            if dc.is_empty() {
+                resizer.resize(&s1, &mut dimg, &opts)
+            } else {
+                let mut d1 = CroppedImageMut::new(&mut dimg, dc[0].0, dc[0].1, dc[0].2, dc[0].3).unwrap();
+                resizer.resize(&s1, &mut d1, &opts)
+            }
+        };
+        dbytes.copy_from_slice(dslice);
+        return r;
+    }
     let simg = ImageRef::new(sw, sh, sslice, case.pt).unwrap();
     let r = {
         let mut dimg = Image::from_slice_u8(dw, dh, dslice, case.pt).unwrap();
